@@ -358,6 +358,12 @@ class CallMixin:
             elif args or kw:
                 raise Unsupported('constructor %s with arguments but without contract' % name)
             return obj
+        if name in st.locals and st.locals[name] is not None and isinstance(st.locals[name].t, T.Ref) \
+                and st.locals[name].t.cls != '$any':
+            cc = self.eng.find_method(st.locals[name].t.cls, '__call__')
+            if cc is not None:
+                args, kw = self.args_of(n, st)
+                return self.call_contract(cc, [st.locals[name]] + args, kw, st, n)
         m = getattr(self, 'bi_' + name, None)
         if m is not None:
             return m(n, st)
@@ -765,6 +771,14 @@ class CallMixin:
                 self.nonnull(recv, st)
                 args, kw = self.args_of(n, st)
                 return self.call_contract(c, [recv] + args, kw, st, n)
+        if isinstance(t, T.Ref) and t.cls != '$any' and meth in self.eng.prop.field_variants:
+            # a field holding a callable object (class with a __call__ contract)
+            fv = self.getattr(recv, meth, st, n)
+            if isinstance(fv.t, T.Ref) and fv.t.cls != '$any':
+                cc = self.eng.find_method(fv.t.cls, '__call__')
+                if cc is not None:
+                    args, kw = self.args_of(n, st)
+                    return self.call_contract(cc, [fv] + args, kw, st, n)
         if isinstance(t, T._Str):
             return self.str_method(recv, meth, n, st)
         if isinstance(t, T.Dict):
